@@ -22,7 +22,10 @@ DEUT = dict(elements=["e", "H", "D", "He", "C", "N", "O"], pseudo=["o", "p", "m"
 GPREFIX = dict(elements=["e", "H", "He", "C", "N", "O", "S", "Si", "Fe"], pseudo=["CR", "PHOTON", "CRPHOT", "o", "p"], repl={}, grain="GRAIN", surface="G")
 ISM = dict(elements=["e", "H", "D", "He", "C", "N", "O", "F", "Na", "Mg", "Si", "P", "S", "Cl", "Fe"], pseudo=["CRP", "XRAY", "PHOTON", "CRPHOT"],
            repl={}, grain="GRAIN", surface="#")
-CONFIGS = {"default": DEFAULT, "cloud": CLOUD, "deuterium": DEUT, "Gprefix": GPREFIX, "ism": ISM}
+# isotopes as user elements: symbols that start with digits, next to a numbered surface group
+ISOTOPES = dict(elements=["e", "H", "D", "T", "He3", "He", "C", "13C", "N", "15N", "O", "18O"], pseudo=["CR", "PHOTON", "CRPHOT", "o", "p"],
+                repl={}, grain="GRAIN", surface="#")
+CONFIGS = {"default": DEFAULT, "cloud": CLOUD, "deuterium": DEUT, "Gprefix": GPREFIX, "ism": ISM, "isotopes": ISOTOPES}
 
 MASS = {}
 for e in chemistrydata.periodic_table + chemistrydata.isotopes_table:
@@ -259,6 +262,10 @@ def flush(res, model, cfg_name, cfg, batch):
                     gname2 = nm.replace(pre, "", 1) if nm.startswith(pre) else None
                 if gas != gname2:
                     why = f"gas-phase counterpart {gas!r}, expected {gname2!r}"
+                # the name without phase prefix and charge signs (what the identifiers are built from)
+                base_want = gname2.rstrip("+").rstrip("-") if (gname2 is not None and comp.get("charge", 0)) else gname2
+                if not why and base != base_want:
+                    why = f"base name {base!r}, expected {base_want!r} (gas-phase name without charge signs)"
                 m_want = sum(MASS.get(k, 0) * v for k, v in want.items())
                 if not why and float(mass) != float(m_want):
                     why = f"mass number {mass}, expected {m_want}"
@@ -297,7 +304,9 @@ def malformed(rng, cfg):
 def pair_check(res, model, cfg_name, cfg, rng):
     """== and hash on pairs of spellings"""
     pool = ["e-", "E", "E-", "e", "H", "H+", "GRAIN", "GRAIN0", "GRAIN-", "GRAIN0-", "GRAIN1", cfg["surface"] + "CO", cfg["surface"] + "H2O",
-            "CO", "H2O", cfg["surface"] + "1CO", "H2", "oH2", "pH2", "He+", "He++"]
+            "CO", "H2O", cfg["surface"] + "1CO", "H2", "oH2", "pH2", "He+", "He++",
+            # isomers and labelled pairs: one composition, different species
+            "HCN", "HNC", cfg["surface"] + "HCN", cfg["surface"] + "HNC", cfg["surface"] + "oH2", cfg["surface"] + "pH2"]
     configure(cfg)
     objs = {}
     for n in pool:
@@ -315,6 +324,12 @@ def pair_check(res, model, cfg_name, cfg, rng):
     for k, (a, b) in enumerate(pairs):
         ie = bool(objs[a] == objs[b])
         case = {"kind": "c08-eq", "config": cfg_name, "pair": [a, b]}
+        # differently written names are different species, except the electron spellings and the grain spellings
+        special = lambda n: n in ("e-", "E", "E-", "e") or n.startswith("GRAIN")
+        if a != b and not special(a) and not special(b) and ie:
+            res.violation("oracle", f"{a!r} == {b!r} under {cfg_name}: two differently written species compare equal", case)
+        if a == b and not ie:
+            res.violation("oracle", f"{a!r} != {a!r} under {cfg_name}", case)
         if mrep is not None and mrep[k] != ("1" if ie else "0"):
             res.corr_disagreements += 1
             res.violation("correspondence", f"{a!r} == {b!r} under {cfg_name}: implementation {ie}, model {mrep[k]}", case)
@@ -348,9 +363,9 @@ def run(res, info):
     rng = random.Random(res.seed * 7919 + 8)
     model = fw.Model() if info["ok"] else None
     res.rule = ("names rendered from compositions (optional surface prefix + group, optional label, 1-4 element tokens with counts "
-                "0/1/2/3/10/12, 0-4 charges, grains with group numbers) over five table configurations (default, UCLCHEM upper-case "
-                "with replacement, deuterium, 'G' surface prefix, ism) + all adjacent element pairs + a malformed stream with a "
-                "foreign character; non-trivial = unambiguous rendering or malformed; ==/hash on all pairs of 21 spellings")
+                "0/1/2/3/10/12, 0-4 charges, grains with group numbers) over six table configurations (default, UCLCHEM upper-case "
+                "with replacement, deuterium, 'G' surface prefix, ism, isotope symbols starting with digits) + all adjacent element pairs + a malformed stream with a "
+                "foreign character; non-trivial = unambiguous rendering or malformed; ==/hash on all pairs of 27 spellings")
     res.assumptions = ["oracle premise: the rendering passes the decidable `unambiguous` test (every spurious occurrence of a "
                        "component overlaps an intended token of higher priority)",
                        "the '*' label is outside the premise (known finding: counted as an element)"]
